@@ -35,7 +35,7 @@ const (
 	bPassResult  // check: explicit pass result
 	bBlockNew    // check: block with a freshly allocated result
 	bBlockPooled // check: block by resetting the context's pooled result (what the library's own slots do)
-	bShouldWait // check: "should wait" result (not a block: the chain goes on to the later slots)
+	bShouldWait  // check: "should wait" result (not a block: the chain goes on to the later slots)
 	bPanicPassed
 	bPanicBlocked
 	bPanicCompleted
@@ -52,11 +52,29 @@ var slotIdx map[string]int
 
 func beh(ctx *base.EntryContext, s *slot) int { return scen[ctx.Input.Flag][slotIdx[s.name]] }
 
+// boom panics with a value whose dynamic type depends on the slot: a string, an error, a runtime error (nil map
+// write), an int or a struct - whatever a slot throws must be contained.
+func boom(where string, s *slot) {
+	switch slotIdx[s.name] % 5 {
+	case 0:
+		panic(where + " " + s.name)
+	case 1:
+		panic(errors.New(where + " " + s.name))
+	case 2:
+		var m map[string]int
+		m[s.name] = 1
+	case 3:
+		panic(len(s.name))
+	default:
+		panic(struct{ where, name string }{where, s.name})
+	}
+}
+
 func (s *slot) Order() uint32 { return s.order }
 func (s *slot) Prepare(ctx *base.EntryContext) {
 	log = append(log, "prep:"+s.name)
 	if beh(ctx, s) == bPanic {
-		panic("prep " + s.name)
+		boom("prep", s)
 	}
 }
 func (s *slot) Check(ctx *base.EntryContext) *base.TokenResult {
@@ -73,26 +91,26 @@ func (s *slot) Check(ctx *base.EntryContext) *base.TokenResult {
 		r.ResetToBlockedWithCause(base.BlockType(10+len(s.name)), "msg-"+s.name, &rule{s.name}, s.name)
 		return r
 	case bPanic:
-		panic("check " + s.name)
+		boom("check", s)
 	}
 	return nil
 }
 func (s *slot) OnEntryPassed(ctx *base.EntryContext) {
 	log = append(log, "passed:"+s.name)
 	if beh(ctx, s) == bPanicPassed {
-		panic("x")
+		boom("passed", s)
 	}
 }
 func (s *slot) OnEntryBlocked(ctx *base.EntryContext, b *base.BlockError) {
 	log = append(log, "blocked:"+s.name+":"+b.BlockMsg())
 	if beh(ctx, s) == bPanicBlocked {
-		panic("x")
+		boom("blocked", s)
 	}
 }
 func (s *slot) OnCompleted(ctx *base.EntryContext) {
 	log = append(log, "completed:"+s.name)
 	if beh(ctx, s) == bPanicCompleted {
-		panic("x")
+		boom("completed", s)
 	}
 }
 
@@ -349,7 +367,13 @@ func TestChain(t *testing.T) {
 					})
 				}
 				if h.handlers&2 != 0 {
-					e.WhenExit(func(*base.SentinelEntry, *base.EntryContext) error { *hl = append(*hl, "panic"); panic("exit handler") })
+					e.WhenExit(func(*base.SentinelEntry, *base.EntryContext) error {
+						*hl = append(*hl, "panic")
+						if len(*hl)%2 == 0 {
+							panic(errors.New("exit handler"))
+						}
+						panic("exit handler")
+					})
 				}
 				live = append(live, h)
 			}
